@@ -209,3 +209,42 @@ func VH_C17_gate() {
 	}
 	rt.Observe("m", m)
 }
+
+// VH_C20_identities: paging through allIdentities page by page (each page is a separate
+// request, so the list is produced again, possibly in another map iteration order)
+// yields every identity exactly once.
+func VH_C20_identities() {
+	fx := cache.VHNewFixture()
+	rc, err := cache.NewRepoCacheNoEvents(fx.Repo)
+	rt.Assume(err == nil)
+	obj := &models.Repository{Repo: rc}
+	all := rc.Identities().AllIds()
+	n := len(all)
+	rt.Assert(n >= 2, "fixture-has-identities")
+	size := 1 + rt.Choose(2)
+	seen := map[entity.Id]int{}
+	var after *string
+	for page := 0; page < n+1; page++ {
+		// a new request: the resolver lists the ids again
+		rt.MapOrder(page % 2)
+		con, err := repoResolver{}.AllIdentities(context.Background(), obj, after, nil, &size, nil)
+		rt.Assert(err == nil, "identities-page-served")
+		if err != nil {
+			return
+		}
+		for _, e := range con.Edges {
+			seen[e.Node.Id()]++
+		}
+		if !con.PageInfo.HasNextPage {
+			break
+		}
+		end := con.PageInfo.EndCursor
+		after = &end
+	}
+	rt.MapOrder(0)
+	for _, id := range all {
+		rt.Assert(seen[id] == 1, "every-identity-exactly-once")
+	}
+	rt.Assert(len(seen) == n, "no-foreign-identity")
+	rt.Cover("paged")
+}
